@@ -20,7 +20,7 @@ impl Read for Src {
     }
 }
 
-//@ props: C01
+//@ props: C01 C13
 //@ functions: <crypto::hash::HashWrapperReader<R> as std::io::Read>::read
 //@ bounds: source of 0..=8 arbitrary bytes returning any count 1..=available per read; caller buffer 0..=8; hash state arbitrary
 //@ stubs: model sha2 (order- and content-sensitive fold); alloc::fmt::format
